@@ -150,6 +150,14 @@ def run_case(c):
     o["split_count"] = len(graph.split(m, only_watertight=False, repair=False))
     if c["kind"] == "closed":
         o["defect_sum"] = float(m.vertex_defects.sum())
+        # hypotheses of C05_defect_sum / C05_gauss_bonnet evaluated on the implementation: the three angles of
+        # every face add up to pi, and each vertex defect is 2 pi minus the angles at that vertex's corners
+        fa_ = np.asarray(m.face_angles, dtype=np.float64)
+        o["face_angle_sum_err"] = float(np.abs(fa_.sum(axis=1) - np.pi).max())
+        acc = np.zeros(len(m.vertices))
+        np.add.at(acc, np.asarray(m.faces).reshape(-1), fa_.reshape(-1))
+        o["defect_regroup_err"] = float(np.abs(np.asarray(m.vertex_defects) - (2 * np.pi - acc)).max())
+        o["defect_sum_referenced"] = float(np.asarray(m.vertex_defects)[np.unique(np.asarray(m.faces).reshape(-1))].sum())
     return o
 
 
@@ -239,6 +247,13 @@ def oracle(c, o):
     if c["kind"] == "closed":
         chi = sum(ref) - len(cnt) + nf
         if abs(o["defect_sum"] - 2 * math.pi * chi) > 1e-9:
+            return bad("vertex_defects")
+        if o["face_angle_sum_err"] > 1e-9:
+            return bad("face_angles-do-not-add-up-to-pi")
+        if o["defect_regroup_err"] > 1e-9:
+            return bad("vertex_defects-is-not-2pi-minus-the-angles-at-the-vertex")
+        # C05_defect_sum (any mesh): pi (2 V - F) over the referenced vertices
+        if abs(o["defect_sum_referenced"] - math.pi * (2 * sum(ref) - nf)) > 1e-9:
             return bad("vertex_defects")
     return None
 
